@@ -164,6 +164,12 @@ def checkQueryLine (kvs : List (String × String)) (rhs : String) : String := Id
       if ttString n res.eval != ttString n d.eval then return s!"FAIL SPEC query #{i}: smoothing changed the function"
       mq := mq ++ [(r, .smooth lvl varAt n)]
       expectModel := expectModel ++ [some a]
+    else if kind == "T" then
+      let k := arg.toNat?.getD n
+      let some res := parseBdd a | return "FAIL PARSE smooth result"
+      if ttString n res.eval != ttString n d.eval then return s!"FAIL SPEC query #{i}: smoothing over a prefix changed the function"
+      mq := mq ++ [(r, .smooth lvl varAt k)]
+      expectModel := expectModel ++ [some a]
     else if kind == "M" then
       match arg.splitOn "/" with
       | [qS, wS] =>
